@@ -8,6 +8,7 @@ import (
 // chanInfo is the scheduler's side table entry for one real channel.
 type chanInfo struct {
 	obj    Obj
+	seq    int
 	closed bool
 	keep   reflect.Value // keeps the channel alive so its address is not reused
 }
@@ -39,7 +40,7 @@ func (c *cref) info(s *Sched) *chanInfo {
 	if c.ci == nil {
 		ci := s.chans[c.p]
 		if ci == nil {
-			ci = &chanInfo{keep: c.v}
+			ci = &chanInfo{keep: c.v, seq: len(s.chans)}
 			s.chans[c.p] = ci
 		}
 		c.ci = ci
@@ -55,7 +56,11 @@ func (c *cref) describe() string {
 	if c.ci != nil && c.ci.closed {
 		cl = ",closed"
 	}
-	return fmt.Sprintf("chan@%x(%d/%d%s)", c.p&0xfffff, c.v.Len(), c.cap, cl)
+	id := "?"
+	if s := current; s != nil {
+		id = fmt.Sprint(c.info(s).seq)
+	}
+	return fmt.Sprintf("chan#%s(%d/%d%s)", id, c.v.Len(), c.cap, cl)
 }
 
 // probeClosed detects a channel that was closed natively (not through
